@@ -64,6 +64,8 @@ MkBody(sc, c, api, b, dc) ==
     [] b = "panic" -> (IF PathsC(sc, c) = {} THEN <<>> ELSE <<Acc(FirstPath(sc, c), ApiMode(api))>>)
                       \o <<[o |-> "panic", pos |-> <<>>, m |-> "", name |-> "", c |-> 0]>>
     [] b = "dbg"   -> <<[o |-> "op", pos |-> <<>>, m |-> "", name |-> "debug", c |-> dc]>>
+    [] b = "access" -> <<[o |-> "op", pos |-> <<>>, m |-> "", name |-> "access", c |-> dc]>>
+    [] b = "dupcheck" -> <<[o |-> "op", pos |-> <<>>, m |-> "", name |-> "dupcheck", c |-> dc]>>
     [] b = "clearpanic" ->   \* clear_poison() of the poisonable being held, then panic with the guard / closure still live
          <<[o |-> "op", pos |-> <<>>, m |-> "", name |-> "clear_poison", c |-> c],
            [o |-> "panic", pos |-> <<>>, m |-> "", name |-> "", c |-> 0]>>
@@ -120,7 +122,7 @@ SeqCalls ==
                /\ ApiMode(x.api) = "r" => SeqAllRw(x.c)
                /\ ~ApiScoped(x.api) => x.key = "owned"
                /\ ApiScoped(x.api) => x.rel = CHOOSE r \in SeqRels : TRUE
-               /\ (x.b = "dbg") = (x.dc # 0)
+               /\ (x.b \in {"dbg", "access", "dupcheck"}) = (x.dc # 0)
                /\ x.b = "clearpanic" => SeqCollTab[x.c].kind = "pois"}}
 BlankItem(k) == [k |-> k, api |-> "", c |-> 0, key |-> "", rel |-> "", body |-> <<>>, name |-> ""]
 SeqItems == SeqCalls
